@@ -139,6 +139,8 @@ Definition l_ae_send (n : node) (peer : nid) : node * sent :=
 Definition l_ae_reply (now : N) (n : node) (rid : N) (peer : nid) (q : ae_req) (p : ae_resp) : node * option is_req :=
   if negb (is_member (conf_of n) peer) || negb (role_eqb (n_role n) Leader) then (n, None) else
   if n_term n <? aer_term p then (become_follower now n peer (aer_term p), None) else
+  (* fix: D1 - a reply to a request of an earlier term is ignored *)
+  if negb (ae_term q =? n_term n) then (n, None) else
   let n1 := bump_round n rid in
   let n2 := if has_quorum (conf_of n1) (round_count n1 rid) then try_apply_ro now n1 else n1 in
   let f := get_follower n2 peer in
